@@ -23,8 +23,11 @@ EXTENDS EnvFSMMC, Integers, Json, IOUtils
 
 Trace == ndJsonDeserialize(IOEnv.TRACE_FILE)
 
-VARIABLES l, scn, mst, holder, found, legal, sec, effects, nviol, ndrift, pend, dec
-tvars == <<l, scn, mst, holder, found, legal, sec, effects, nviol, ndrift, pend, dec>>
+VARIABLES l, scn, mst, holder, found, legal, sec, effects, nviol, ndrift, pend, dec,
+          apisec,   \* the lock section in progress decides a control request of the API
+          secfail,  \* ... and its transition has reported an error
+          owed      \* a control request of the API failed (or was refused) and the environment has not reached ERROR / DONE since
+tvars == <<l, scn, mst, holder, found, legal, sec, effects, nviol, ndrift, pend, dec, apisec, secfail, owed>>
 Zero == [e \in Events |-> 0]
 
 Line == Trace[l]
@@ -39,6 +42,8 @@ Point(p) == Line.ev = "Hook" /\ Line.point = p /\ IsEnv
 Edge(a, b) == a = b \/ a = "PENDING" \/ <<a, b>> \in Documented
 
 \* a newly reported state
+Dst(op) == IF op \in Events THEN Table[op].dst ELSE ""
+
 Report(new, what) ==
   /\ mst' = new
   /\ nviol' = nviol
@@ -57,7 +62,7 @@ StepIdx(s) == CHOOSE i \in 1..5 : Steps[i] = s
 TReset ==
   /\ Line.ev = "Reset"
   /\ scn' = Line.scn /\ mst' = "PENDING" /\ holder' = "" /\ found' = "" /\ legal' = TRUE /\ sec' = 0 /\ effects' = 0
-  /\ pend' = Zero /\ dec' = Zero
+  /\ pend' = Zero /\ dec' = Zero /\ apisec' = FALSE /\ secfail' = FALSE /\ owed' = FALSE
   /\ UNCHANGED <<nviol, ndrift>>
 
 TAcquire ==
@@ -74,6 +79,8 @@ TAcquire ==
   /\ IF Line.what \in Events /\ pend[Line.what] > 0
        THEN pend' = [pend EXCEPT ![Line.what] = @ - 1] /\ dec' = [dec EXCEPT ![Line.what] = @ + 1]
        ELSE UNCHANGED <<pend, dec>>
+  /\ apisec' = (Line.what \in Events /\ pend[Line.what] > 0) /\ secfail' = FALSE
+  /\ owed' = IF Line.st \in {"ERROR", "DONE"} THEN FALSE ELSE owed
   /\ UNCHANGED <<scn, ndrift>>
 
 TRelease ==
@@ -85,18 +92,24 @@ TRelease ==
        + Soft("Graph", Edge(mst, Line.st), <<mst, Line.st, "release">>)
        + Soft("DoneTerminal", mst = "DONE" => Line.st = "DONE", <<mst, Line.st, "release">>)
        + Soft("IllegalHasNoEffect", ~legal => (effects = 0 /\ Line.st = found), <<Line.what, found, Line.st, effects>>)
+  \* a control request of the API that was refused or whose transition failed: the API owes the environment a way to ERROR
+  /\ owed' = IF Line.st \in {"ERROR", "DONE"} THEN FALSE
+             ELSE IF apisec /\ (~legal \/ secfail \/ (Line.what \in Events /\ Line.st # Dst(Line.what))) THEN TRUE ELSE owed
+  /\ apisec' = FALSE /\ secfail' = FALSE
   /\ UNCHANGED <<scn, ndrift, pend, dec>>
 
 TSetState ==
   /\ Point("env.setstate")
   /\ Report(Line.to, "setstate")
-  /\ UNCHANGED <<scn, holder, found, legal, sec, effects, ndrift, pend, dec>>
+  /\ owed' = IF Line.to \in {"ERROR", "DONE"} THEN FALSE ELSE owed
+  /\ UNCHANGED <<scn, holder, found, legal, sec, effects, ndrift, pend, dec, apisec, secfail>>
 
 \* state read back right after the API's forced write
 TForce ==
   /\ Point("api.force.done")
   /\ Report(Line.st, "force")
-  /\ UNCHANGED <<scn, holder, found, legal, sec, effects, ndrift, pend, dec>>
+  /\ owed' = IF Line.st \in {"ERROR", "DONE"} THEN FALSE ELSE owed
+  /\ UNCHANGED <<scn, holder, found, legal, sec, effects, ndrift, pend, dec, apisec, secfail>>
 
 \* events published by the core: reported state + the step structure of the transition in progress
 TEnvEv ==
@@ -112,7 +125,8 @@ TEnvEv ==
         /\ IF Line.st \in States /\ Line.tx # "CREATE" /\ ~(Line.tx = "DESTROY" /\ Line.err)
              THEN Report(Line.st, "event")
              ELSE UNCHANGED <<mst, nviol>>
-  /\ UNCHANGED <<scn, holder, found, legal, pend, dec>>
+        /\ secfail' = (secfail \/ (Line.msg = "transition error" /\ holder = Line.tx))
+  /\ UNCHANGED <<scn, holder, found, legal, pend, dec, apisec, owed>>
 
 \* a hook started / a task command was sent: effects of the transition in progress
 TEffect ==
@@ -120,9 +134,7 @@ TEffect ==
   /\ effects' = IF holder # "" THEN effects + 1 ELSE effects
   \* (judged at once: a request that is not legal may never come back and release the lock)
   /\ nviol' = nviol + Soft("IllegalHasNoEffect", holder = "" \/ legal, <<holder, found, Line.ev>>)
-  /\ UNCHANGED <<scn, mst, holder, found, legal, sec, ndrift, pend, dec>>
-
-Dst(op) == IF op \in Events THEN Table[op].dst ELSE ""
+  /\ UNCHANGED <<scn, mst, holder, found, legal, sec, ndrift, pend, dec, apisec, secfail, owed>>
 
 TReply ==
   /\ Line.ev = "ApiReply" /\ Line.call = "control" /\ IsEnv
@@ -137,19 +149,25 @@ TReply ==
        \* judged inside its own lock section, i.e. after every transition or teardown that was in progress when it arrived
        + Soft("SerialView", (Line.op \in Events /\ Line.code \in {"OK", "Aborted"}) => dec[Line.op] > 0, <<Line.op, Line.code, Line.st, mst>>)
   /\ dec' = IF Line.op \in Events /\ dec[Line.op] > 0 THEN [dec EXCEPT ![Line.op] = @ - 1] ELSE dec
-  /\ UNCHANGED <<scn, mst, holder, found, legal, sec, effects, ndrift, pend>>
+  /\ UNCHANGED <<scn, mst, holder, found, legal, sec, effects, ndrift, pend, apisec, secfail, owed>>
 
 TApi ==
   /\ Line.ev = "Api" /\ Line.call = "control" /\ IsEnv
   /\ pend' = IF Line.op \in Events THEN [pend EXCEPT ![Line.op] = @ + 1] ELSE pend
-  /\ UNCHANGED <<scn, mst, holder, found, legal, sec, effects, nviol, ndrift, dec>>
+  /\ UNCHANGED <<scn, mst, holder, found, legal, sec, effects, nviol, ndrift, dec, apisec, secfail, owed>>
+
+\* end of the scenario (every caller joined, the follow-up of a request whose client gave up awaited at the lock)
+TEnd ==
+  /\ Line.ev = "End"
+  /\ nviol' = nviol + Soft("ApiFailureEndsInError", ~owed, <<"a refused or failed control request was never followed to ERROR", mst>>)
+  /\ UNCHANGED <<scn, mst, holder, found, legal, sec, effects, ndrift, pend, dec, apisec, secfail, owed>>
 
 TOther ==
-  /\ ~(Line.ev = "Reset")
+  /\ ~(Line.ev = "Reset") /\ ~(Line.ev = "End")
   /\ ~Point("env.lock.acquired") /\ ~Point("env.lock.release") /\ ~Point("env.setstate") /\ ~Point("api.force.done")
   /\ ~(Line.ev = "EnvEv" /\ IsEnv) /\ ~(Line.ev \in {"HookStart", "MMessage"} /\ IsEnv) /\ ~Point("env.teardown.phase")
   /\ ~(Line.ev = "ApiReply" /\ Line.call = "control" /\ IsEnv) /\ ~(Line.ev = "Api" /\ Line.call = "control" /\ IsEnv)
-  /\ UNCHANGED <<scn, mst, holder, found, legal, sec, effects, nviol, ndrift, pend, dec>>
+  /\ UNCHANGED <<scn, mst, holder, found, legal, sec, effects, nviol, ndrift, pend, dec, apisec, secfail, owed>>
 
 TraceInit ==
   \* EnvFSM's own variables are not used here (only its constants and operators): pin them
@@ -161,11 +179,11 @@ TraceInit ==
   /\ tdforce = [p \in Procs |-> FALSE] /\ reply = [p \in Procs |-> NoReply]
   /\ txn = [p \in Procs |-> 0] /\ eff = {} /\ illegal = {}
   /\ l = 1 /\ scn = -1 /\ mst = "PENDING" /\ holder = "" /\ found = "" /\ legal = TRUE /\ sec = 0 /\ effects = 0
-  /\ nviol = 0 /\ ndrift = 0 /\ pend = Zero /\ dec = Zero
+  /\ nviol = 0 /\ ndrift = 0 /\ pend = Zero /\ dec = Zero /\ apisec = FALSE /\ secfail = FALSE /\ owed = FALSE
 
 TraceNext ==
   /\ l <= Len(Trace)
-  /\ (TReset \/ TAcquire \/ TRelease \/ TSetState \/ TForce \/ TEnvEv \/ TEffect \/ TReply \/ TApi \/ TOther)
+  /\ (TReset \/ TAcquire \/ TRelease \/ TSetState \/ TForce \/ TEnvEv \/ TEffect \/ TReply \/ TApi \/ TEnd \/ TOther)
   /\ l' = l + 1
   /\ UNCHANGED vars
 
